@@ -105,7 +105,14 @@ class GatePolicy(taint.Policy):
         pl = op[1]
         dsc = self.describer(eng, fn)
         l = pl[0]
-        if l != 0 and l <= fn["argc"] and len(pl) == 1:
+        if l != 0 and l <= fn["argc"] and (len(pl) == 1 or all(e == "*" for e in pl[1:])):
+            # a value parameter handed on (`fn scalar_ok(s: &Scalar, c: u32) -> bool { c != 0 && s.iszero() == 0 }`): what it
+            # is gets decided at the call site (GateAnalysis.subst)
+            td = self.f.ty(fn["locals"][l][0])
+            if td.get("k") in ("ref", "ptr"):
+                td = self.f.ty(td["to"])
+            if td.get("k") == "adt" and not fn.get("reach"):
+                return ("parg", l)
             return None
         d = dsc.b.single_def(l)
         if not d:
@@ -302,6 +309,8 @@ class GateAnalysis(taint.FnAnalysis):
                 for x in l[2]:
                     if x is None:
                         na.append(None)
+                    elif x[0] == "parg":
+                        na.append(self.pol.res_of(self.eng, self.fn, args[x[1] - 1]) if 0 < x[1] <= len(args) else None)
                     elif x[0] in ("p", "l", "bswap", "sub", "subp", "subv"):
                         na.append(dsc.subst_slice(x, args) or ("l", "?"))
                     else:
